@@ -1,6 +1,7 @@
 //! F flavour ("faults"): real threads; the simulator owns the stored bytes, the output I/O
 //! points, process death and pack availability.
 
+mod campaign;
 mod hooks;
 
 use simcore::gen;
@@ -120,6 +121,21 @@ fn main() {
     let args = parse_args();
     match args.cmd.as_str() {
         "smoke" => smoke(&args),
+        "c04" | "c05" | "c06" => {
+            let mode = match args.cmd.as_str() {
+                "c04" => campaign::Mode::C04,
+                "c05" => campaign::Mode::C05,
+                _ => campaign::Mode::C06,
+            };
+            if let Some(f) = args.replay.clone() {
+                campaign::replay_main(&args, mode, &f)
+            } else if let Some((w, n)) = args.worker {
+                campaign::worker_main(&args, mode, w, n)
+            } else {
+                campaign::parent_main(&args, mode)
+            }
+        }
+        "child-damage" => campaign::child_main(&args),
         other => simcore::harness_error(&format!("unknown command {other:?}")),
     }
 }
